@@ -678,6 +678,19 @@ def durationBin (op : BinOp) (a b : Int) (st : St) : Res :=
   | .ge => boolRes (a ≥ b) st
   | _ => .stuck "Duration operator without a rule"
 
+-- [shm] begin: `==` / `!=` on arrays of integers
+/-- std: `impl PartialEq<[U; N]> for [T; N]` — arrays are equal iff they are element-wise equal.  Only for
+    arrays of integers (an unsuffixed literal takes the type of the element it is compared with; two
+    different integer types, or different lengths, do not type-check: no rule). -/
+def intListEq : List Value → List Value → Option Bool
+  | [], [] => some true
+  | .int t a :: as, .int t' b :: bs =>
+    match IntTy.unify t t', intListEq as bs with
+    | some _, some r => some (decide (a = b) && r)
+    | _, _ => none
+  | _, _ => none
+-- [shm] end
+
 /-- strict binary operators (`&&` and `||` are lazy and handled by `eval`) -/
 def binOp (op : BinOp) : Value → Value → St → Res
   | .int t1 a, .int t2 b, st =>
@@ -706,6 +719,13 @@ def binOp (op : BinOp) : Value → Value → St → Res
     | .eq => boolRes (p = q) st
     | .ne => boolRes (p ≠ q) st
     | _ => .stuck "enum operator without a rule"
+  -- [shm] begin: `[T; N] == [T; N]`, `!=` (arrays of integers, see `intListEq`)
+  | .list as, .list bs, st =>
+    match op, intListEq as bs with
+    | .eq, some r => .val (.bool r) st
+    | .ne, some r => .val (.bool (!r)) st
+    | _, _ => .stuck "array operator without a rule"
+  -- [shm] end
   | _, _, _ => .stuck "binary operator: no rule for these operand types"
 
 /-- see `Ext.litFallback`: two integer operands of unknown type take the fallback type, if there is one -/
